@@ -1,6 +1,7 @@
 HOOK_COMMITS = []
 ENGINES = [
-    {"name": "explore", "path": "vf/core/explore.py", "serves_properties": [], "kind_free_text": "explicit-state BFS with state merging over the real objects; bounded product enumeration; deviation-bounded DFS"},
+    {"name": "explore", "path": "vf/core/explore.py", "serves_properties": ["C03", "C08", "C09", "C11", "C13", "C17"], "kind_free_text": "explicit-state BFS with state merging over the real objects; bounded product enumeration; deviation-bounded stateless DFS"},
+    {"name": "vloop", "path": "vf/core/vloop.py", "serves_properties": ["C10"], "kind_free_text": "virtual asyncio event loop stepped by hand: ready-queue steps, environment events and timers are explicit choices explored exhaustively by explore.dfs"},
 ]
 NOT_APPLICABLE = {}
 CHECKS = {
@@ -39,5 +40,11 @@ CHECKS = {
         technique="explicit-state BFS over header-mapping mutation histories with emission on both gateways; exhaustive cookie and redirect strings over a hostile alphabet",
         text="BFS to depth 3 (thorough 4) over 290 header-mapping mutations (6 keys x 8 values incl. CR/LF/NUL/CRLF injection, all mutation paths) against a dict that refuses control characters, every reachable state emitted through both gateway drivers; every cookie name x value up to length 2 (3) over 13 hostile symbols with default and full attribute sets (attribute list must be exactly the expected one, one header, ASCII); every redirect target up to length 3 over 11 symbols as str and as URL.",
         note="constructor headers= argument not covered (not a mutating operation); cookie path/domain outside the statement; bounded string lengths",
+    ),
+    "C10": dict(
+        engine="vloop", level="model_checking", design_ref="DESIGN.md §3 C10",
+        technique="exhaustive access-sequence enumeration against a caching reference model (WSGI, ASGI) plus stateless exploration of every task/message interleaving on a virtual asyncio loop",
+        text="Sequential: every access sequence up to depth 3 (thorough 4) over {body, stream fully, stream first chunk, json, form, close} x 5 body kinds x all splits into <=3 reads/messages incl. empty messages and (ASGI) disconnect positions, step-wise against a reference model of the documented caching rules, with identity of repeated results and receive accounting. Concurrent (ASGI): 1225 two-task programs (thorough adds three-task programs) x message scripts; every interleaving of task steps and in-order message deliveries is executed on the real Request under a virtual event loop; each result must be complete or a documented error, no task may be left stuck, no receive after the final message.",
+        note="virtual loop models the asyncio contract (FIFO ready queue, I/O completions at arbitrary points); is_disconnected() and cancellation outside the alphabet; bodies are five fixed small bodies",
     ),
 }
